@@ -192,6 +192,12 @@ impl ObjUpvalue {
 
     pub(crate) fn get(&self) -> Value {
         match self.data {
+            #[cfg(feature = "verif_hooks")]
+            ObjUpvalueState::Open(a) => {
+                crate::memory::verif::slot_check(a as *const u8);
+                unsafe { *a }
+            }
+            #[cfg(not(feature = "verif_hooks"))]
             ObjUpvalueState::Open(a) => unsafe { *a },
             ObjUpvalueState::Closed(v) => v,
         }
@@ -199,6 +205,12 @@ impl ObjUpvalue {
 
     pub(crate) fn set(&mut self, value: Value) {
         match self.data {
+            #[cfg(feature = "verif_hooks")]
+            ObjUpvalueState::Open(a) => {
+                crate::memory::verif::slot_check(a as *const u8);
+                unsafe { *a = value }
+            }
+            #[cfg(not(feature = "verif_hooks"))]
             ObjUpvalueState::Open(a) => unsafe { *a = value },
             ObjUpvalueState::Closed(ref mut v) => *v = value,
         }
